@@ -237,7 +237,7 @@ PROPS = {
     },
     "C13": {
         "modules": ["SxVerif.Props.C13"],
-        "components": ["gen", "engine", "pipeline", "arpcache"],
+        "components": ["gen", "engine", "pipeline", "arpcache", "iface"],
         "trusted_base": [
             "modelled, not verified: bufio.Scanner line splitting (64 KiB limit) and the easyjson decoder of IPPort as a line classifier (badJson | tooLong | entry(ip?, port)); net.ParseIP as an abstract outcome; cidranger as list membership",
         ],
@@ -275,7 +275,7 @@ PROPS = {
     },
     "C06": {
         "modules": ["SxVerif.Props.C06"],
-        "components": ["proc"],
+        "components": ["proc", "e2ereply", "e2e"],
         "trusted_base": [
             "modelled, not verified: gopacket layers.{Ethernet,IPv4,TCP,ICMPv4,ARP}.DecodeFromBytes, NextLayerType, LayerPayload and the DecodingLayerParser loop with IgnoreUnsupported and panicToError (Model/Frame.lean), incl. uint8 wrap-around in the ARP decoder and the slice-capacity = length assumption for captured frames",
             "macs.ValidMACPrefixMap (vendor lookup) is opaque",
@@ -286,7 +286,7 @@ PROPS = {
     },
     "C05": {
         "modules": ["SxVerif.Props.C05"],
-        "components": ["fill", "iface", "parse", "e2efill"],
+        "components": ["fill", "iface", "parse", "pipeline", "e2efill"],
         "trusted_base": [
             "modelled, not verified: gopacket layers.{Ethernet,IPv4,TCP,UDP,ICMPv4,ARP}.SerializeTo, gopacket.Payload, SerializeLayers order, checksum / tcpipChecksum / pseudoheaderChecksum, Ethernet padding to 60 bytes, net.IP.To4 (Model/Fill.lean); validated byte for byte against the real fillers on every run, not proved",
             "math/rand draws are parameters of the model; their ranges are regenerated from the four Fill bodies by sxfacts (Generated/Fill.lean, theorem C05_draws); rand.Intn(n) returns a value in [0, n)",
